@@ -56,10 +56,8 @@ Section Fixed.
   Hypothesis Hpos : doc_positions_okb D = true.
 
   (** stage 2: GroupedFieldSetCache never changes a response (no typing premise needed) *)
-  Theorem collect_cache_transparent W :
-    dirs_evaluable D E = true -> run fixed S D E fuel W = run fixed_nomemo S D E fuel W.
+  Theorem collect_cache_transparent W : run fixed S D E fuel W = run fixed_nomemo S D E fuel W.
   Proof.
-    intro Hev.
     destruct (doc_positions_okb_sound D Hpos) as [Hinj Hsmall].
     apply (run_memo_transparent fixed fixed_nomemo S D E fuel); try reflexivity; try assumption.
     apply type_names_okb_sound. exact Hnames.
@@ -74,7 +72,7 @@ Section Fixed.
       subseq errs (all_errors (exec_spec S D E fuel W)) /\
       Forall (explained errs) (failure_nulls (exec_spec S D E fuel W)).
   Proof.
-    rewrite (collect_cache_transparent W (doc_ok_dirs_evaluable S D E fuel n Hdoc)).
+    rewrite (collect_cache_transparent W).
     apply (run_refines_spec fixed_nomemo S D E fuel eq_refl eq_refl eq_refl n W Hdoc).
   Qed.
 
@@ -111,8 +109,8 @@ Section Fixed.
 End Fixed.
 
 (** ** the two repaired defects, kept as witnesses: the code before each repair violates the property *)
-Definition before_fix1 : mode := {| fix1 := false; fix7 := true; memo := true |}.
-Definition before_fix7 : mode := {| fix1 := true; fix7 := false; memo := true |}.
+Definition before_fix1 : mode := {| fix1 := false; fix7 := true; memo := true; fixd := true |}.
+Definition before_fix7 : mode := {| fix1 := true; fix7 := false; memo := true; fixd := true |}.
 
 Definition w_Q : name := [81]%N.
 Definition w_Int : name := [73; 110; 116]%N.
@@ -173,13 +171,19 @@ Definition w_doc_l : document :=
 Definition w_W_l : outcome :=
   OObj w_Q [(w_l, OList [OObj w_O [(w_a, OLeaf (GInt IInt 1))]; OObj w_O [(w_a, OLeaf (GInt IInt 1))]])].
 
-Theorem collect_cache_transparent_refuted_unevaluable :
+(** before the repair (every traversal reports): one error with the cache, two without; after it:
+    one, with and without *)
+Definition before_fixd : mode := {| fix1 := true; fix7 := true; memo := true; fixd := false |}.
+Definition before_fixd_nomemo : mode := {| fix1 := true; fix7 := true; memo := false; fixd := false |}.
+
+Theorem collect_cache_transparent_refuted_before_fixd :
   exists S D E fuel W,
     type_names_okb S = true /\ doc_positions_okb D = true /\ dirs_evaluable D E = false /\
-    exists d e, run fixed S D E fuel W = Done d [e] /\ run fixed_nomemo S D E fuel W = Done d [e; e].
+    exists d e, run before_fixd S D E fuel W = Done d [e] /\ run before_fixd_nomemo S D E fuel W = Done d [e; e] /\
+                run fixed S D E fuel W = Done d [e] /\ run fixed_nomemo S D E fuel W = Done d [e].
 Proof.
   exists w_schema_l, w_doc_l, [], 2%nat, w_W_l.
   repeat split; try (vm_compute; reflexivity).
   exists (Some (JObj [(w_l, JArr [JObj []; JObj []])])), {| e_path := []; e_locs := [{| line := 1; col := 9 |}] |}.
-  vm_compute. split; reflexivity.
+  vm_compute. repeat split; reflexivity.
 Qed.
